@@ -56,6 +56,12 @@ def enumerate_states(tier, seed):
             d.update({n: 0 for n in gs.COORDS})
             d.update(sa=sa, sb=sb, pl=pl, u=u)
             clip.append(d)
+    for ta, tb in itertools.product(sc.TYPES, sc.TYPES):   # the largest shapes of the domain, overlapping / touching / apart
+        for pl, u in itertools.product((1, 0, 7, 9, 10), axes + [0]):
+            d = {"ta": ta, "tb": tb}
+            d.update({n: 0 for n in gs.COORDS})
+            d.update(sa=sc.MAXSIZE[ta], sb=sc.MAXSIZE[tb], pl=pl, u=u)
+            clip.append(d)
     states += clip
     meta["bound_completed"] += " + clipping family (large/unit sizes x far placements x 6 axis directions: %d scenes)" % len(clip)
     if tier == "thorough":
